@@ -72,6 +72,14 @@ CHECKS = {
             'oracle: CPython applying the same operator to the raw values',
             'Every cell of the finite table is executed on the real proxy class and compared with the raw operation: same '
             'success/failure, equal unwrapped result and type, nothing on stdout, never NotImplemented.', '2/C16'),
+    'C07': ('exhaustive table: 18 binary assert_* classes x ordered operand pairs from a 33-value alphabet (ints, floats near the '
+            'tolerance, bools, strings differing by case/punctuation, containers, None, sets, nested, a real call() error, an '
+            'opaque object) x 4 wrappings (raw/proxy per side; proxies are real call() results), plus unary, instance/type, '
+            'regex and output families and the unit_test() pass/fail/error space; oracle: the Python relation evaluated in a try '
+            'on the unwrapped operands, complement pairs, and a conservative reference for assert_equal',
+            'Every cell of the finite table is executed on the real assertion classes; silent iff the relation holds, errors and '
+            'unevaluable relations fail, complements never agree where exactly one relation holds, equality is order independent.',
+            '2/C07'),
 }
 
 PENDING = ['C02', 'C03', 'C04', 'C05', 'C06', 'C07', 'C08', 'C09', 'C10', 'C11', 'C12', 'C13', 'C14', 'C15',
